@@ -350,7 +350,8 @@ def loop_exit_atoms(test: ast.AST) -> Tuple[str, List[Tuple[str, str, str, bool]
 # ---------------------------------------------------------------------------
 def expand_names(func: FuncInfo, expr: ast.AST, depth: int = 2) -> ast.AST:
     """*expr* with every bare local that is assigned exactly once (to a boolean-valued expression) replaced by that expression:
-    ``too_deep = depth > MAX; if too_deep or too_many`` is read as ``if depth > MAX or ...``."""
+    ``too_deep = depth > MAX; if too_deep or too_many`` is read as ``if depth > MAX or ...``.  (``__hN`` temporaries are the
+    inliner's own: a call it lifted out of the very statement that reads it, so they are always read as that call.)"""
     import copy
 
     def _pure(v) -> bool:
@@ -371,7 +372,7 @@ def expand_names(func: FuncInfo, expr: ast.AST, depth: int = 2) -> ast.AST:
                 all_defs = assignments_to(func, n.id)
                 defs = [d for d in all_defs if isinstance(d, (ast.Assign, ast.AnnAssign)) and getattr(d, "value", None) is not None]
                 if len(defs) == 1 and len(all_defs) == 1 and isinstance(defs[0].value, (ast.Compare, ast.BoolOp, ast.UnaryOp, ast.BinOp, ast.Call, ast.JoinedStr, ast.Subscript, ast.Attribute, ast.Name)) \
-                        and _pure(defs[0].value) and not any(isinstance(y, ast.Name) and y.id == n.id for y in ast.walk(defs[0].value)):
+                        and (_pure(defs[0].value) or n.id.startswith("__h")) and not any(isinstance(y, ast.Name) and y.id == n.id for y in ast.walk(defs[0].value)):
                     v = copy.deepcopy(defs[0].value)
                     return expand_names(func, v, depth - 1) if depth > 0 else v
             return n
